@@ -32,7 +32,7 @@ type Profile struct {
 var profiles = map[string]Profile{
 	"general": {MinNodes: 3, MaxNodes: 5, Steps: 14, Clients: 4, MaxIDs: 6, DelayProb: 0.05,
 		Ops: map[string]int{"update": 6, "read": 2, "dirty": 1, "barrier": 1},
-		Faults: map[string]int{"isolate-leader": 4, "isolate-any": 2, "oneway": 2, "split": 2, "stall": 3, "break": 2,
+		Faults: map[string]int{"isolate-leader": 4, "isolate-any": 2, "oneway": 2, "split": 2, "stall": 3, "break": 2, "halfwrite": 3,
 			"restart": 2, "crash": 3, "transfer": 2, "snapshot": 3, "member": 3, "heal": 2}},
 	"election": {MinNodes: 3, MaxNodes: 5, Steps: 18, Clients: 2, MaxIDs: 6, DelayProb: 0.08,
 		Ops: map[string]int{"update": 5, "read": 1},
@@ -40,13 +40,13 @@ var profiles = map[string]Profile{
 			"restart": 3, "crash-vote": 4, "transfer": 2, "member": 1, "heal": 2, "slow-votes": 6}},
 	"load": {MinNodes: 3, MaxNodes: 5, Steps: 10, Clients: 8, MaxIDs: 5, DelayProb: 0.05,
 		Ops:    map[string]int{"update": 8, "read": 2, "dirty": 2, "barrier": 1},
-		Faults: map[string]int{"isolate-leader": 3, "stall": 2, "break": 2, "restart": 2, "crash": 2, "transfer": 3, "snapshot": 3, "selfdemote": 1, "heal": 2}},
+		Faults: map[string]int{"isolate-leader": 3, "stall": 2, "break": 2, "halfwrite": 3, "restart": 2, "crash": 2, "transfer": 3, "snapshot": 3, "selfdemote": 1, "heal": 2}},
 	"member": {MinNodes: 1, MaxNodes: 4, Steps: 16, Clients: 3, MaxIDs: 6, DelayProb: 0.05,
 		Ops:    map[string]int{"update": 6, "read": 1, "barrier": 1},
-		Faults: map[string]int{"member": 10, "isolate-leader": 3, "isolate-any": 2, "transfer": 3, "crash": 2, "restart": 1, "stall": 2, "snapshot": 1, "heal": 2, "tnow": 5, "selfdemote": 2, "selfremove": 1, "shrink": 2}},
+		Faults: map[string]int{"member": 10, "isolate-leader": 3, "isolate-any": 2, "transfer": 3, "crash": 2, "restart": 1, "stall": 2, "snapshot": 1, "heal": 2, "tnow": 5, "selfdemote": 2, "selfremove": 1, "shrink": 2, "readdr": 2}},
 	"snapshot": {MinNodes: 3, MaxNodes: 4, Steps: 14, Clients: 5, MaxIDs: 5, DelayProb: 0.05,
 		Ops:    map[string]int{"update": 10, "read": 1, "dirty": 1},
-		Faults: map[string]int{"snapshot": 8, "slow-snapshot": 4, "isolate-any": 4, "stall": 2, "restart": 3, "crash": 2, "member": 2, "transfer": 1, "heal": 3}},
+		Faults: map[string]int{"snapshot": 8, "slow-snapshot": 4, "isolate-any": 4, "stall": 2, "halfwrite": 4, "restart": 3, "crash": 2, "member": 2, "transfer": 1, "heal": 3}},
 	"transfer": {MinNodes: 3, MaxNodes: 5, Steps: 16, Clients: 4, MaxIDs: 6, DelayProb: 0.05,
 		Ops:    map[string]int{"update": 6, "read": 1, "barrier": 1},
 		Faults: map[string]int{"transfer": 10, "stall": 3, "oneway": 2, "isolate-any": 2, "break": 2, "member": 2, "heal": 2}},
@@ -55,7 +55,7 @@ var profiles = map[string]Profile{
 		Faults: map[string]int{"crash": 12, "crash-vote": 3, "snapshot": 4, "isolate-leader": 2, "stall": 2, "member": 1, "transfer": 1, "restart": 1, "heal": 1}},
 	"everything": {MinNodes: 3, MaxNodes: 5, Steps: 16, Clients: 6, MaxIDs: 6, DelayProb: 0.08,
 		Ops: map[string]int{"update": 8, "read": 2, "dirty": 1, "barrier": 1},
-		Faults: map[string]int{"isolate-leader": 3, "isolate-any": 2, "oneway": 2, "split": 2, "stall": 3, "break": 2,
+		Faults: map[string]int{"isolate-leader": 3, "isolate-any": 2, "oneway": 2, "split": 2, "stall": 3, "break": 2, "halfwrite": 3,
 			"restart": 3, "crash": 3, "transfer": 3, "snapshot": 5, "member": 4, "selfdemote": 1, "heal": 2}},
 }
 
@@ -76,6 +76,7 @@ type engineA struct {
 	pauseLoad   int32
 
 	ids      []uint64 // node ids ever used
+	moves    int
 	parked   map[uint64]bool
 	faultsOn bool
 }
@@ -548,6 +549,23 @@ func (e *engineA) fault(act string) {
 			return
 		}
 		e.net.BreakConns(a.label, b.label)
+	case "halfwrite":
+		// the sender goes away in the middle of a message: the receiver sees a
+		// prefix of a request, a response or a snapshot and then end-of-stream
+		a, b := e.randLive(), e.randLive()
+		if e.rng.Intn(2) == 0 {
+			if l := e.cl.leader(); l != nil {
+				a = l
+			}
+		}
+		if a == nil || b == nil || a == b {
+			return
+		}
+		k := int64(1 + e.rng.Intn(400))
+		if e.rng.Intn(3) == 0 {
+			k = int64(1 + e.rng.Intn(20000))
+		}
+		e.net.CutAfter(a.label, b.label, k)
 	case "restart":
 		n := e.randLive()
 		if n == nil {
@@ -590,7 +608,19 @@ func (e *engineA) fault(act string) {
 		case 5:
 			target = 99 // invalid
 		}
-		go e.cl.transfer(l, target, time.Duration(1+e.rng.Intn(6))*e.hb())
+		timeout := time.Duration(1+e.rng.Intn(6)) * e.hb()
+		switch e.rng.Intn(6) {
+		case 0:
+			timeout = 0 // the library's default
+		case 1:
+			timeout = time.Duration(20+e.rng.Intn(20)) * e.hb()
+		}
+		go e.cl.transfer(l, target, timeout)
+		if e.rng.Intn(4) == 0 {
+			// a second request while the first is in progress
+			ids := e.cl.nodeIDs()
+			go e.cl.transfer(l, ids[e.rng.Intn(len(ids))], timeout)
+		}
 	case "slow-votes":
 		// a voter whose disk is slow: its grant leaves long after it was decided
 		n := e.randLive()
@@ -634,9 +664,23 @@ func (e *engineA) fault(act string) {
 		if n == nil {
 			return
 		}
-		go e.cl.takeSnapshot(n, uint64(e.rng.Intn(3)))
+		thr := uint64(e.rng.Intn(3))
+		if e.rng.Intn(5) == 0 {
+			thr = uint64(10 + e.rng.Intn(200))
+		}
+		go e.cl.takeSnapshot(n, thr)
+		if e.rng.Intn(5) == 0 {
+			go e.cl.takeSnapshot(n, 0)
+		}
 	case "member":
 		e.memberAction()
+		if e.rng.Intn(3) == 0 {
+			if l := e.cl.leader(); l != nil {
+				go e.cl.waitStable(l, 100*e.hb())
+			}
+		}
+	case "readdr":
+		e.moveNode()
 	case "selfdemote":
 		l := e.cl.leader()
 		if l == nil {
@@ -752,6 +796,11 @@ func (e *engineA) memberAction() {
 			if conf.SetAction(id, raft.ForceRemove) == nil {
 				desc += fmt.Sprintf("forceremove(%d) ", id)
 			}
+		case choice == 9 && e.rng.Intn(2) == 0 && len(members) > 0:
+			id := members[e.rng.Intn(len(members))]
+			if conf.SetData(id, fmt.Sprintf("data-%d", e.rng.Intn(1000))) == nil {
+				desc += fmt.Sprintf("setdata(%d) ", id)
+			}
 		default: // illegal request: flip a voting right directly, or drop a node
 			if len(members) == 0 {
 				continue
@@ -801,6 +850,47 @@ func (e *engineA) memberAction() {
 		act := []raft.Action{raft.Demote, raft.Remove, raft.Promote}[e.rng.Intn(3)]
 		if conf2.SetAction(id, act) == nil {
 			go e.cl.submitConfig(l, fmt.Sprintf("back-to-back %v(%d)", act, id), conf2)
+		}
+	}
+}
+
+// moveNode gives a member another address through a configuration change
+// and, once that is committed, restarts the node on the new address.
+func (e *engineA) moveNode() {
+	l := e.cl.leader()
+	if l == nil {
+		return
+	}
+	info, ok := l.info(false)
+	if !ok {
+		return
+	}
+	var ids []uint64
+	for id := range info.Configs.Latest.Nodes {
+		if id != l.nid {
+			ids = append(ids, id)
+		}
+	}
+	if len(ids) == 0 {
+		return
+	}
+	sort.Slice(ids, func(i, j int) bool { return ids[i] < ids[j] })
+	id := ids[e.rng.Intn(len(ids))]
+	e.moves++
+	address := fmt.Sprintf("c%dn%d.m%d:1", e.cl.cid, id, e.moves)
+	e.rc.emit(&ev.Rec{K: "fault-detail", Op: "readdr", Nid: id, Note: address})
+	err := e.cl.changeConfig(l, fmt.Sprintf("setaddr(%d,%s)", id, address), func(conf *raft.Config) error {
+		return conf.SetAddr(id, address)
+	})
+	if err != nil {
+		return
+	}
+	e.cl.moveTo(id, address)
+	if n := e.cl.node(id); n != nil && n.alive() {
+		if n.shutdown(30 * time.Second) {
+			if _, err := e.cl.start(id, n.dir); err != nil {
+				e.rc.emit(&ev.Rec{K: "restart-failed", Cid: e.cl.cid, Nid: id, Err: err.Error()})
+			}
 		}
 	}
 }
